@@ -1,6 +1,7 @@
 //! vcheck — property-based checks for bgpfu/bgpfu-rs (see /verif/DESIGN.md).
 #![allow(clippy::all)]
 
+mod binrun;
 mod core;
 mod fake_junos;
 mod fullrun;
@@ -90,6 +91,14 @@ fn main() {
             .unwrap_or_default();
         core::LAST_PANIC.with(|p| *p.borrow_mut() = Some((loc, msg)));
     }));
+    if let Ok(filter) = std::env::var("VERIF_TRACE") {
+        // development aid: library log records to stderr
+        let _ = tracing_log::LogTracer::init();
+        let _ = tracing_subscriber::fmt()
+            .with_env_filter(tracing_subscriber::EnvFilter::new(filter))
+            .with_writer(std::io::stderr)
+            .try_init();
+    }
     if id == "list" {
         for p in props::all() {
             println!("{} {:?}", p.id, p.parts.iter().map(|x| x.name()).collect::<Vec<_>>());
